@@ -93,7 +93,9 @@ func c14Project(items []c14Item, row map[string]any, onceVal map[int]any, sites 
 
 func genC14(t *rapid.T) *Bundle {
 	nrows := rapid.IntRange(0, 6).Draw(t, "nrows")
-	place := rapid.SampledFrom([]string{"top", "derived_star", "cte", "subquery", "derived_cols"}).Draw(t, "place")
+	place := rapid.SampledFrom([]string{"top", "derived_star", "cte", "subquery", "derived_cols", "subquery_in_derived", "subquery_in_cte"}).Draw(t, "place")
+	// the calls sit in a row-scoped subquery (possibly itself nested in a derived table / CTE)
+	inSub := strings.HasPrefix(place, "subquery")
 	rows := make([]any, 0, nrows)
 	for i := 0; i < nrows; i++ {
 		r := map[string]any{
@@ -111,7 +113,7 @@ func genC14(t *rapid.T) *Bundle {
 	}
 	doc := map[string]any{"t": rows}
 	argCols := []string{"id", "a", "s"}
-	if place == "subquery" {
+	if inSub {
 		argCols = []string{"v", "w"}
 	}
 	nitems := rapid.IntRange(1, 6).Draw(t, "nitems")
@@ -132,13 +134,22 @@ func genC14(t *rapid.T) *Bundle {
 			usedCols[it.Arg] = true
 		case "once":
 			it.Stub = rapid.SampledFrom([]string{"fx", "fid"}).Draw(t, "stub")
-			if usedOnce[it.Stub] || place == "subquery" {
+			constKind := rapid.IntRange(0, 3).Draw(t, "once_const")
+			if constKind == 1 {
+				it.Stub = "fid" // a NULL result needs the identity stub
+			}
+			if usedOnce[it.Stub] || inSub {
 				continue // one ONCE call per function name per query is all the statement fixes
 			}
 			usedOnce[it.Stub] = true
-			if rapid.Bool().Draw(t, "once_const") {
+			switch constKind {
+			case 0:
 				it.IsCons = true
 				it.Const = float64(rapid.IntRange(0, 9).Draw(t, "const"))
+			case 1:
+				// a ONCE call whose single result is NULL is still exactly one call
+				it.IsCons = true
+				it.Const = nil
 			}
 		case "immq":
 			it.Qual = rapid.SampledFrom([]string{"ASYNC", "SPIN", "SPINASYNC"}).Draw(t, "qual")
@@ -167,7 +178,7 @@ func genC14(t *rapid.T) *Bundle {
 		whereK = rapid.IntRange(0, 5).Draw(t, "where_k") * 10
 	}
 	where := ""
-	if whereK >= 0 && place != "subquery" {
+	if whereK >= 0 && !inSub {
 		where = fmt.Sprintf(" WHERE a >= %d", whereK)
 	}
 	var query string
@@ -195,6 +206,10 @@ func genC14(t *rapid.T) *Bundle {
 		query = fmt.Sprintf("WITH c AS (SELECT %s FROM t%s) SELECT * FROM c", selSQL, where)
 	case "subquery":
 		query = fmt.Sprintf("SELECT id, (SELECT %s FROM n) AS sub FROM t", selSQL)
+	case "subquery_in_derived":
+		query = fmt.Sprintf("SELECT * FROM (SELECT id, (SELECT %s FROM n) AS sub FROM t) d", selSQL)
+	case "subquery_in_cte":
+		query = fmt.Sprintf("WITH c AS (SELECT id, (SELECT %s FROM n) AS sub FROM t) SELECT * FROM c", selSQL)
 	}
 
 	// expectation
@@ -203,7 +218,7 @@ func genC14(t *rapid.T) *Bundle {
 	evaluated := 0
 	for _, r := range rows {
 		row := r.(map[string]any)
-		if place == "subquery" {
+		if inSub {
 			evaluated += len(row["n"].([]any))
 		} else if whereK < 0 || row["a"].(float64) >= float64(whereK) {
 			evaluated++
@@ -221,14 +236,18 @@ func genC14(t *rapid.T) *Bundle {
 		onceVal := map[int]any{}
 		for _, r := range rows {
 			row := r.(map[string]any)
-			if place == "subquery" {
+			if inSub {
 				inner := []any{}
 				// ONCE is per query: the subquery is prepared once per outer row
 				perRowOnce := map[int]any{}
 				for _, nr := range row["n"].([]any) {
 					inner = append(inner, c14Project(items, nr.(map[string]any), perRowOnce, sites))
 				}
-				exp.Rows = append(exp.Rows, map[string]any{"id": row["id"], "sub": inner})
+				outer := map[string]any{"id": row["id"], "sub": inner}
+				if place == "subquery_in_derived" {
+					outer = map[string]any{"d": outer}
+				}
+				exp.Rows = append(exp.Rows, outer)
 				continue
 			}
 			if whereK >= 0 && row["a"].(float64) < float64(whereK) {
@@ -274,7 +293,7 @@ func genC14(t *rapid.T) *Bundle {
 	sim := drawSim(t, "")
 	c := oneClientCase("C14", sim, doc, casefmt.Op{Doc: 0, Vars: -1, Query: query, Wrapped: rapid.Bool().Draw(t, "wrapped") && place != "cte" && false})
 	maxCalls := nrows
-	if place == "subquery" {
+	if inSub {
 		maxCalls = nrows * 3
 	}
 	if maxCalls < 1 {
